@@ -263,7 +263,7 @@ def main(argv):
         rc, out = C.lake_build(["ucfgdrv"])
         drv_ok = rc == 0
         aud = audit(mod.LEAN_MODULE)
-        okw, werr = C.build_worker()
+        okw, werr = C.build_worker(race=bool(getattr(mod, "NEEDS_RACE", False)))
     if not okw:
         # the repository does not build with the hook tag: nothing can be checked
         p = write_replay(pid, "build-broken", extra={"log": werr[-3000:]})
